@@ -73,6 +73,10 @@ def make_plan(run_seed: int, profile: Dict[str, Any]) -> Dict[str, Any]:
     gfmt = rng.choice(["bnf", "bnf", "py", "arg"])
     # each constraint goes to a .isla file or a -c argument
     cfmt = [rng.choice(["file", "file", "arg"]) for _ in formulas]
+    # a carriage return *inside a string literal* does not survive a text file (.isla files
+    # are read with universal newlines, which is what lets ISLa read files with Windows
+    # line ends at all): such a constraint is passed with -c
+    cfmt = ["arg" if "\r" in print_formula(f) else c for f, c in zip(formulas, cfmt)]
     ops: List[List[Any]] = []
     n_cmds = rng.randint(2, profile.get("max_cmds", 6))
     for _ in range(n_cmds):
